@@ -324,7 +324,7 @@ func (c *cmafIngester) start(ctx context.Context) {
 
 	refRep := c.asset.refRep
 	lastNr := findLastSegNr(c.cfg, c.asset, nowMS, refRep)
-	nextSegNr := lastNr + 1
+	nextSegNr := lastNr + 1 + c.cfg.getStartNr() // segment numbers are counted from the start number (snr_)
 	lastSegNrToSend := -1
 
 	if c.nrSegsToSend != nil {
